@@ -578,3 +578,20 @@ func VerifC03LateReply() {
 	zzverif.Assert(len(vx.queue) == 2, "input-loop-continues-after-a-late-reply")
 	zzverif.Reach("end")
 }
+
+// VerifC03SizeReplies: window-size reports (CSI Ps ; ... t) of any kind (Ps free) with 0-6
+// parameters of free values, complete, truncated or over-long: handleSequence neither
+// panics nor blocks, whatever the capability flags.
+func VerifC03SizeReplies() {
+	vx := verifInputVaxis()
+	verifSymCaps(vx)
+	np := zzverif.Choose("np", 7)
+	params := make([][]int, np)
+	for i := range params {
+		params[i] = []int{int(zzverif.Byte("p"))}
+	}
+	zzverif.Terminates(3000)
+	vx.handleSequence(ansi.CSI{Final: 't', Parameters: params})
+	zzverif.Assert(len(vx.queue) <= 2, "bounded-number-of-events")
+	zzverif.Reach("end")
+}
